@@ -264,7 +264,19 @@ def fresh_programs(seed, n, syms=gen.SYMS, tids=None):
             cold = [f"cold{k}_{j}" for j in range(nout)]
             steps.append({"op": op, "in": ins, "out": hot, "args": a, "entry": entry})
             steps.append({"op": "fresh", "in": ins, "out": cold, "args": {"call": {"op": op, "args": a, "entry": entry}}})
+            steps.append({"op": "rel", "in": [], "out": [], "args": {"how": "all_or_none", "names": [hot[0], cold[0]],
+                                                                     "clause": f"C15.same_as_fresh_interpreter.{op}.outcome"}})
             for u, v in zip(hot, cold):
                 steps.append(rel("obs", f"C15.same_as_fresh_interpreter.{op}", u, v))
+            if op in ("fuse", "reshape", "svd_truncated") and rng.random() < 0.7:
+                # the cache configured through the environment of a new process: off, a single entry, tiny sector limit
+                env = rng.choice([{"SYMMRAY_FUSE_CACHE_MAXSIZE": 0}, {"SYMMRAY_FUSE_CACHE_MAXSIZE": 1},
+                                  {"SYMMRAY_FUSE_CACHE_MAXSECTORS": 1}])
+                cenv = [f"cenv{k}_{j}" for j in range(nout)]
+                steps.append({"op": "fresh", "in": ins, "out": cenv, "args": {"call": {"op": op, "args": a, "entry": entry, "env": env}}})
+                steps.append({"op": "rel", "in": [], "out": [], "args": {"how": "all_or_none", "names": [hot[0], cenv[0]],
+                                                                         "clause": f"C15.same_with_cache_env.{op}.outcome"}})
+                for u, v in zip(hot, cenv):
+                    steps.append(rel("obs", f"C15.same_with_cache_env.{op}", u, v))
         progs.append({"tid": tids(), "inputs": inputs, "steps": steps})
     return progs
